@@ -52,6 +52,15 @@ def _get_uses_of(node: ast.AST, scope: ast.AST, source: str) -> Iterable[ast.Nam
             # The name is a local variable of that function
             blacklisted_names.update(core.walk(funcdef, ast.Name))
 
+    # A comprehension that binds the name has its own variable of that name, except in its first iterable
+    for comp in core.walk(scope, (ast.ListComp, ast.SetComp, ast.DictComp, ast.GeneratorExp)):
+        targets = [generator.target for generator in comp.generators]
+        if node not in core.walk(comp, type(node)) and any(
+            any(core.walk(target, ast.Name(id=name))) for target in targets
+        ):
+            own_names = set(core.walk(comp, ast.Name))
+            blacklisted_names.update(own_names - set(core.walk(comp.generators[0].iter, ast.Name)))
+
     augass_candidates = {
         target
         for augass in core.walk(scope, ast.AugAssign)
